@@ -74,7 +74,7 @@ func guarded(f func() (string, error)) callRes {
 		}()
 		v, err := f()
 		if err != nil {
-			ch <- callRes{"err", ""}
+			ch <- callRes{"err", err.Error()}
 			return
 		}
 		ch <- callRes{"ok", v}
